@@ -192,7 +192,7 @@ PROPS = {
     "C14": {
         "thm": "SameVerif.Thm.C14",
         "suites": ["sigflush"],
-        "spec_filter": r"^spec\.sig c14 ",
+        "spec_filter": r"^spec\.sig (c14|c14ref) ",
         "technique": "Lean 4 theorems on the receiver model (a pending result is emitted at the first NoCarrier tick at or after its deadline, under the change filter; 4 s of samples contain more ticks than latency + hold) + close-cut recordings at every rate through the real flush() loop",
         "level_text": "Proved in Lean: while a result is pending the reported transport state differs from it (invariant), so the change filter passes it; over any run of NoCarrier ticks that reaches the pending deadline the message event is emitted exactly at the first tick with symbol count >= deadline and the slot is emptied (also in the presence of the forced-EOM timer: first or second due tick); arithmetic over the generated constants: if ticks are at most rate/260 samples apart (half the nominal symbol rate - a deliberately weak clock assumption), 4*rate samples contain >= 1040 ticks > 300 + MAX_INTERBURST_SYMBOLS + 1. "
                       "Sampled on the real receiver: header-only (2 or 3 bursts), full transmissions (2 or 3 trailer bursts) and 252-byte headers, cut at the last sample of the final burst, +1 sample, +2..200 samples and random points up to 2.2 s later, at 3 (quick) / 8 (thorough) rates: messages before the cut plus those from repeated flush() are exactly the transmission's messages, then None twice.",
